@@ -30,18 +30,25 @@ Theorem C08_time_refuted :
 Proof. exact time_refuted_lemma. Qed.
 Print Assumptions C08_time_refuted.
 
-(* F08-3 (known finding): binc AsSymbols=1, out-of-band keys containing strings: the side encoder's
-   symbol table makes the key bytes depend on the iteration order *)
-Theorem C08_binc_symbols_refuted :
+(* F08-3 is repaired (/repo 36f56b8): a side encoder writes no binc symbols, the out-of-band bytes
+   of a string key are a function of the key: for ALL maps with distinct string keys held in
+   interface{} any two iteration orders give the same canonical output under binc AsSymbols=1 *)
+Theorem C08_binc_side_keys : forall (V : Type) (es es' : list (key (list N) * V)),
+  Permutation es es' -> NoDup (map fst es) -> Forall (fun e => kind_of (list N) (fst e) = KKOob) es ->
+  enc_map_canon (list N) binc_str_plain V KKOob es = enc_map_canon (list N) binc_str_plain V KKOob es'.
+Proof. exact binc_side_lemma. Qed.
+Print Assumptions C08_binc_side_keys.
+
+(* what the code did before that repair (one symbol table across the keys of a map) *)
+Example C08_binc_symbols_before_repair :
   exists (es es' : list (list N * N)),
     Permutation es es' /\ NoDup (map fst es) /\
     map snd (enc_map_canon_binc_syms es) <> map snd (enc_map_canon_binc_syms es').
 Proof. exact binc_syms_refuted_lemma. Qed.
-Print Assumptions C08_binc_symbols_refuted.
 
 (* the property under the guard that excludes exactly those classes: no two distinct keys look
    the same to the comparator (keys_ok), and the encoding of an out-of-band key is a function of
-   the key alone (encO is a function).  For ALL key kinds, key encodings, value types, maps and
+   the key alone (encO is a function; true of the code since 36f56b8).  For ALL key kinds, key encodings, value types, maps and
    pairs of iteration orders. *)
 Theorem C08_perm : forall (O : Type) (encO : O -> list N) (V : Type) (kk : kkind) (es es' : list (key O * V)),
   Permutation es es' -> NoDup (map fst es) -> keys_ok O encO V kk es ->
